@@ -373,23 +373,15 @@ func (e *Engine) protoNative(fi *FnInfo) *Native {
 	switch fi.name {
 	case "google.golang.org/protobuf/proto.Marshal":
 		return simple(func(e *Engine, s *State, gi int, args []Value) Value {
-			m := args[0].(Iface)
-			if m.t == nil {
-				return Tuple{Slice{}, Iface{}}
+			return e.protoMarshal(s, args[0].(Iface))
+		})
+	case "(google.golang.org/protobuf/proto.MarshalOptions).MarshalAppend":
+		// MarshalAppend(b, m) with an empty b (the buffer-reuse idiom): the encoding of m
+		return simple(func(e *Engine, s *State, gi int, args []Value) Value {
+			if b, ok := args[1].(Slice); ok && b.ln != 0 {
+				unsup("proto MarshalAppend onto a non-empty buffer")
 			}
-			p := m.v.(Ptr)
-			if p.obj == 0 {
-				return Tuple{Slice{}, Iface{}}
-			}
-			// a message whose every field is absent or zero encodes to zero bytes
-			if st, ok := m.t.Underlying().(*types.Pointer).Elem().Underlying().(*types.Struct); ok {
-				if z := e.protoIsZero(s, e.load(s, p), st); e.decide(s, z) {
-					return Tuple{Slice{}, Iface{}}
-				}
-			}
-			snap := e.deepClone(s, p, map[int]int{})
-			id := s.alloc(&Object{v: &ArrayV{e: []Value{Tuple{snap}}}, label: "wire-token"})
-			return Tuple{Slice{obj: id, ln: 1, cap: 1}, Iface{}}
+			return e.protoMarshal(s, args[2].(Iface))
 		})
 	case "google.golang.org/protobuf/proto.Unmarshal":
 		return simple(func(e *Engine, s *State, gi int, args []Value) Value {
@@ -413,6 +405,26 @@ func (e *Engine) protoNative(fi *FnInfo) *Native {
 		})
 	}
 	return nil
+}
+
+// protoMarshal: the wire-token model of proto.Marshal.
+func (e *Engine) protoMarshal(s *State, m Iface) Value {
+	if m.t == nil {
+		return Tuple{Slice{}, Iface{}}
+	}
+	p := m.v.(Ptr)
+	if p.obj == 0 {
+		return Tuple{Slice{}, Iface{}}
+	}
+	// a message whose every field is absent or zero encodes to zero bytes
+	if st, ok := m.t.Underlying().(*types.Pointer).Elem().Underlying().(*types.Struct); ok {
+		if z := e.protoIsZero(s, e.load(s, p), st); e.decide(s, z) {
+			return Tuple{Slice{}, Iface{}}
+		}
+	}
+	snap := e.deepClone(s, p, map[int]int{})
+	id := s.alloc(&Object{v: &ArrayV{e: []Value{Tuple{snap}}}, label: "wire-token"})
+	return Tuple{Slice{obj: id, ln: 1, cap: 1}, Iface{}}
 }
 
 // protoIsZero: does a generated message struct hold only absent / zero-valued fields (so that its
